@@ -38,7 +38,10 @@ def gen_config(rng):
             clsno += 1
             has_name = rng.random() < 0.8
             c = {"cls": f"Cls{clsno}", "mode_name": None, "disabled": False, "default": False, "ctor_fault": False, "helper_base": False,
-                 "falsy": rng.random() < 0.15}      # a mode object that evaluates false (e.g. an empty step queue with __len__)
+                 "falsy": rng.random() < 0.15,      # a mode object that evaluates false (e.g. an empty step queue with __len__)
+                 # the class is defined in a helper module outside the package and merely imported by the package module
+                 # (a shared library of routines, a class factory): it is found in the module all the same
+                 "imported": rng.random() < 0.12}
             if has_name:
                 c["mode_name"] = rng.choice(names_pool) if rng.random() < (0.25 if p_fault else 0.0) else f"{rng.choice(names_pool)} {clsno}"
                 c["disabled"] = rng.random() < 0.15
@@ -175,23 +178,31 @@ def write_package(cfg, root):
         L += ["class HelperBase:", "    def on_enable(self):", "        SIM.cb(self, 'on_enable', None)",
               "    def on_disable(self):", "        SIM.cb(self, 'on_disable', None)",
               "    def on_iteration(self, tm):", "        SIM.cb(self, 'on_iteration', tm)", ""]
+        pre = list(L)
+        shared = []
         for c in m["classes"]:
-            L.append(f"class {c['cls']}(HelperBase):")
-            L.append(f"    CID = {c['cls']!r}")
+            T = shared if c.get("imported") else L
+            T.append(f"class {c['cls']}(HelperBase):")
+            T.append(f"    CID = {c['cls']!r}")
             if c["mode_name"] is not None:
-                L.append(f"    MODE_NAME = {c['mode_name']!r}")
+                T.append(f"    MODE_NAME = {c['mode_name']!r}")
             if c["disabled"]:
-                L.append("    DISABLED = True")
+                T.append("    DISABLED = True")
             if c["default"]:
-                L.append("    DEFAULT = True")
+                T.append("    DEFAULT = True")
             if c.get("falsy"):
-                L.append("    def __len__(self):")
-                L.append("        return 0")
-            L.append("    def __init__(self, *args, **kwargs):")
-            L.append(f"        SIM.ctor({c['cls']!r}, args, kwargs)")
+                T.append("    def __len__(self):")
+                T.append("        return 0")
+            T.append("    def __init__(self, *args, **kwargs):")
+            T.append(f"        SIM.ctor({c['cls']!r}, args, kwargs)")
             if c["ctor_fault"]:
-                L.append("        raise RuntimeError('constructor fault')")
-            L.append("")
+                T.append("        raise RuntimeError('constructor fault')")
+            T.append("")
+        if shared:
+            hm = "verif_shared_" + m["name"]
+            with open(os.path.join(root, hm + ".py"), "w") as f:
+                f.write("\n".join(pre + shared) + "\n")
+            L.insert(len(pre), f"from {hm} import " + ", ".join(c["cls"] for c in m["classes"] if c.get("imported")))
         if m["import_fault"] == "SyntaxError":
             L.append("def broken(:")
         elif m["import_fault"] == "ImportError":
@@ -284,6 +295,8 @@ def execute(plan, trace=False):
     fault("directory_listing_permuted")
     if cfg.get("path_twice") and not cfg["missing"]:
         fault("namespace_package_directory_twice_on_sys_path")
+    if any(c.get("imported") for m in cfg["modules"] for c in m["classes"]) and not cfg["missing"]:
+        fault("mode_class_imported_from_outside_the_package")
     d = discovery(cfg)
     status, violation = "ok", None
     real_wait = hal.waitForNotifierAlarm
